@@ -489,5 +489,36 @@ def r13_9(ctx):
     return r
 
 
+def r13_10(ctx):
+    """'the sender stops injecting new data once the receiver's advertised window is exhausted': in transmit() the
+    budget for new data is min(cwnd-term, peer_rwnd) - flight. The advertised window has to enter that minimum as
+    advertised. Raising it on the way (a floor of one packet 'as a zero-window probe') re-opens a closed window by a
+    packet for EVERY transmit call: flight_size does not count gap-acked or lost-marked chunks, so with a hole
+    outstanding each arriving SACK releases another full chunk into a window the peer has declared closed."""
+    r = RuleResult("R13.10", "K6/provenance", "the peer's advertised window enters the send budget unmodified")
+    fn = "transports::sctp::SctpInner::transmit::{closure#0}"
+    b = ctx.body(fn)
+    r.scope.append(fn)
+    n = 0
+    for bi, t, p in b.calls():
+        if not p or not p.endswith("::min") or len(t["a"]) != 2:
+            continue
+        args = [b.term_operand(a) for a in t["a"]]
+        w = [a for a in args if mir.has(a, lambda x: core.is_atomic_load(x, "peer_rwnd"))]
+        if not w:
+            continue
+        n += 1
+        a = w[0]
+        inner = a[1] if a[0] == "cast" else a
+        if core.is_atomic_load(inner, "peer_rwnd"):
+            r.ok({"site": b.where(bi), "window term": mir.show(a, 80)})
+        else:
+            r.violate(fn, "rwnd:modified", b.where(bi),
+                      "the advertised window enters the send budget as %s, not as advertised: a raised / floored window lets new DATA "
+                      "into a window the peer has closed" % mir.show(a, 100))
+    r.need("min(.., peer_rwnd) in transmit", n, 1)
+    return r
+
+
 def run(ctx):
-    return [r13_1(ctx), r13_2(ctx), r13_3(ctx), r13_4(ctx), r13_5(ctx), r13_6(ctx), r13_7(ctx), r13_8(ctx), r13_9(ctx)]
+    return [r13_1(ctx), r13_2(ctx), r13_3(ctx), r13_4(ctx), r13_5(ctx), r13_6(ctx), r13_7(ctx), r13_8(ctx), r13_9(ctx), r13_10(ctx)]
